@@ -112,16 +112,46 @@ class _Alias:
 
 
 def r1(ctx, F, bs):
+    """No outcome of a bisync run depends on a file time or the clock.  Bodies that read none are clean.  Where a time IS read
+    (a scan hint, a statistics snapshot), it must not flow into what decides the outcome: the values of the two scans (own rule
+    below), the arguments of reconcile / apply, the tests made in run_bisync, apply and the reconcile functions, the fingerprints
+    recorded, the names of conflict copies."""
+    from rules import bisync as _b
     cg, graph = bs.bisync_graph()
     sites = cg.call_sites(lambda c: c in tables.TIME_READERS, within=graph)
+    readers = {bd.path for (bd, bb, c) in sites}
     for b in sorted(graph):
-        hits = [(bb, c) for (bd, bb, c) in sites if bd.path == b]
-        if hits:
-            for bb, c in hits:
-                ctx.bad('C06.R1', '%s:%s' % (b.split('::{')[0], c), 'a body reachable from run_bisync reads a time (%s): the outcome could depend on mtimes' % c,
-                        term_loc(F.body(b), bb))
-        else:
+        if b not in readers:
             ctx.ok('C06.R1', b, 'no time reader')
+    if sites:
+        tf = _b._time_functions(F, cg)
+        DECIDERS = ('bidir::run_bisync', 'bidir::apply', 'reconcile::reconcile', 'reconcile::reconcile_path')
+        SINK_CALLS = ('reconcile::reconcile', 'reconcile::reconcile_path', 'bidir::apply', 'bidir::copy_atomic', 'std::fs::remove_file', 'std::fs::rename')
+        found = []
+        for path in sorted(graph):
+            body = F.body(path)
+            top = path.split('::{')[0]
+            if top not in DECIDERS:
+                continue
+            fl = flow_of(body)
+            for bi in sorted(fl.cfg.reachable()):
+                t = body.blocks[bi]['term']
+                if t['k'] == 'switch' and t['on']['k'] != 'const' and _b.time_tainted(F, fl, t['on'], tf):
+                    found.append((body, bi, 'a test in %s' % top.split('::')[-1]))
+                elif t['k'] == 'call':
+                    c = callee(t) or ''
+                    if c in SINK_CALLS or c.endswith('BTreeMap::<K, V, A>::insert') or c.endswith('::push') or c.endswith('::push_str'):
+                        for a in t['args']:
+                            if _b.time_tainted(F, fl, a, tf):
+                                found.append((body, bi, 'an argument of %s in %s' % (c.split('::')[-1], top.split('::')[-1])))
+                                break
+        for body, bi, what in found:
+            ctx.bad('C06.R1', '%s:time-reaches-a-decision' % body.path.split('::{')[0], 'a value computed from a file time or the clock reaches %s: the outcome depends on mtimes' % what,
+                    term_loc(body, bi))
+        if not found:
+            for (bd, bb, c) in sites:
+                ctx.ok('C06.R1', '%s:%s' % (bd.path.split('::{')[0], c), 'a time is read, but no value derived from it reaches the scans, reconcile, apply, the tests of run_bisync / apply / reconcile or the recorded state', term_loc(bd, bb))
+    ctx.attempt(_b.scan_is_content, ctx, F, 'C06.R1')
     # positive control: the same query must see the mtime reader under the one-way sync
     ctl = cg.call_sites(lambda c: c in tables.TIME_READERS, within=cg.reach(['incremental::run_local']))
     if not ctl:
